@@ -66,12 +66,15 @@ def check(run):
     vec_path = os.path.join(run.work, "vectors.ndjson")
     core.write_ndjson(vec_path, vectors)
     trace = os.path.join(run.work, "trace.ndjson")
-    core.run_rs("c09", [vec_path, trace, run.seed, 48, 200 if thorough else 20], timeout=3400)
+    # every rx_every-th stream also goes through beast::receiver over loopback TCP into a 2-place queue
+    rx_every = max(1, len(vectors) // (60 if thorough else 12))
+    core.run_rs("c09", [vec_path, trace, run.seed, 48, 200 if thorough else 20, rx_every], timeout=3400)
     events = core.read_ndjson(trace)
     if len(events) != len(vectors):
         raise core.ToolError("harness dropped vectors (crash?)")
     rejected, results = core.validate_sharded("trace/Trace_Beast", events, run.work,
                                               shards=12 if thorough else 8, timeout=3400)
+    run.cov["receiver_backpressure_streams"] = sum(1 for e in events if e.get("rx") == 1)
     design_mismatch = 0
     for r in results:
         run.add_tlc(r)
@@ -82,12 +85,16 @@ def check(run):
         ev = events[i - 1]
         sig = {"single_piece_ok": ev["n_diff"] > 0 and not ev["single_panic"],
                "panic": ev["single_panic"] or ev["n_panic"] > 0}
+        if ev.get("rx") == 1 and not ev.get("rx_same", True):
+            sig["receiver"] = "frames_not_handed_on"
         run.report(sig, {"frames_hex": [bytes(f).hex() for f in ev["frames"]],
                          "raw_hex": bytes(ev["raw"]).hex(),
                          "single_piece_output": [bytes(f).hex() for f in ev["single"]],
                          "differing_chunkings": [{"cuts": d["cuts"], "out": [bytes(f).hex() for f in d["out"]]}
                                                  for d in ev["diff"]],
-                         "n_differing": ev["n_diff"], "index": i})
+                         "n_differing": ev["n_diff"], "index": i,
+                         "through_receiver": {"ran": ev.get("rx") == 1, "same": ev.get("rx_same", True),
+                                              "payloads": [bytes(f).hex() for f in ev.get("rx_out", [])]}})
     run.cov.update({
         "traces_validated_against_impl": len(events),
         "scenarios_from_tlc": n_tlc,
